@@ -79,6 +79,17 @@ def skeleton_problem(abstract):
     return None
 
 
+def noframes_after_frameset(abstract):
+    """the recorded deviation and nothing else: the element children of html are head, frameset and then ONLY noframes
+    elements (what the 'after frameset' / 'after after frameset' insertion modes prescribe); a noframes (or anything else)
+    after a body, or any other extra child, is a different failure"""
+    roots = [k for k in abstract[1] if k[0] == "elem"]
+    if len(roots) != 1 or roots[0][2] != "html":
+        return False
+    names = [k[2] for k in roots[0][4] if k[0] == "elem"]
+    return len(names) > 2 and names[:2] == ["head", "frameset"] and all(n == "noframes" for n in names[2:])
+
+
 def shallow(tree, tb):
     """document -> html -> children only (no recursion: trees may be tens of thousands deep)"""
     import xml.etree.ElementTree as ET
@@ -134,7 +145,7 @@ def one(ctx, data, tb, container, src, **kw):
         prob = skeleton_problem(abstract)
         if prob:
             cls = "skeleton:" + prob
-            if prob.startswith("extra-element-child-of-html:noframes"):
+            if prob == "extra-element-child-of-html:noframes" and noframes_after_frameset(abstract):
                 cls = "skeleton:noframes-after-frameset"
             ctx.fail(cls, "parsed document does not have the html/head/body-or-frameset skeleton",
                      {"input": repr(data[:300]), "builder": tb, "source": src})
